@@ -11,6 +11,7 @@ CARRY = re.compile(r"^(adc|sbb|mac|carrying_|borrowing_|conditional_adc|conditio
                    r"add_mul_carry|overflowing_add|overflowing_sub|overflowing_neg|adc_mul_limbs|impl_longa|"
                    r"shl1_assign$|overflowing_shl1$|shl1$|shr1$|shr1_with_carry$)")
 CARRY_TYS = ("limb::Limb", "u64", "subtle::Choice", "const_choice::ConstChoice")
+WIDE_CARRY = {"mac", "mul_wide", "carrying_mul", "mac_by_limb", "add_mul_carry"}
 
 
 def reads_of(view, local):
@@ -285,6 +286,37 @@ def run(facts, report, config, scope_prefix=("modular::", "<modular::"), exclude
                                     t["s"], {"body": b["id"]}), config)
                 continue
             dropped.setdefault(k0, []).append((seg, t["s"]))
+        # a full-width carry (the high word of a multiply-accumulate) must be propagated with a carrying add: summing it
+        # with `wrapping_add` loses the overflow when it meets another carry (MAX + 1 wraps to 0)
+        prov = None
+        for bi, t in view.calls():
+            if view.blocks[bi]["cleanup"] or (mir.last_seg(mir.callee_name(t)) or "") not in ("wrapping_add", "wrapping_sub"):
+                continue
+            if not t["args"] or t["args"][0][0] not in ("c", "m") or \
+                    mir.peel_refs(view.locals[t["args"][0][1][0]]) != "limb::Limb":
+                continue
+            prov = prov or mir.Provenance(view)
+            wide = []
+            for a in t["args"]:
+                roots = mir.uniq_roots(prov.roots_of_operand(a))
+                nonconst = [r for r in roots if r.kind != "const"]
+                if nonconst and all(r.kind == "call" and (mir.last_seg(r.what) or "") in WIDE_CARRY and r.path and
+                                    r.path[-1] == "1" for r in nonconst):
+                    wide.append(mir.last_seg(nonconst[0].what))
+            if not wide:
+                continue
+            report.count(counter)
+            k1 = "carry.widesum|%s|%s" % (norm_id(b["id"]), wide[0])
+            e = reviewed.get(k1)
+            if e is not None:
+                used.add(k1)
+                report.add(Instance(k1, "carry.widesum", "reviewed", "reviewed: " + e["reason"], t["s"], {"body": b["id"]}), config)
+            else:
+                report.add(Instance(k1, "carry.widesum", "violation",
+                                    "the full-width carry returned by `%s` is added with `%s` in `%s`: when it is MAX and meets "
+                                    "another carry the sum wraps to zero and 2^64 (one unit of the next limb) is lost — a "
+                                    "carrying add (`adc`) is needed" % (wide[0], mir.last_seg(mir.callee_name(t)), b["id"]),
+                                    t["s"], {"body": b["id"]}), config)
         for k0, sites in partial.items():
             e = reviewed.get(k0)
             allowed = int(e.get("drops", 1)) if e is not None else 0
